@@ -18,8 +18,7 @@ package c18
 // neither verdict could be defended): enum case variants and `trace` level, explicit empty
 // strategy/level/format strings, invalid values inside disabled features, enabled features with
 // required fields *omitted* (README "Basic Configuration" does that; the validator and the unit tests
-// reject it — that conflict is reported through the corpus sub-check, not asserted here), equal ports
-// for different listeners, wrongly typed scalars (`port: "80"`).
+// reject it — that conflict is reported through the corpus sub-check, not asserted here), wrongly typed scalars (`port: "80"`).
 
 var (
 	DocStrategies = []string{"round_robin", "least_connections", "weighted_round_robin", "ip_hash", "ip_hash_consistent"}
@@ -170,6 +169,19 @@ func Violations(m *Model) []string {
 	// admin API
 	if m.Admin.Mode == Enabled && !portOK(m.Admin.Port) {
 		add("admin_api:port-range")
+	}
+
+	// listeners: "every enabled listener needs its own port" (README / helios.yaml comments on
+	// metrics.port and admin_api.port). The proxy listener always exists; metrics and the admin API
+	// only count when enabled — a disabled or absent one may carry any port number.
+	if m.Metrics.Mode == Enabled && m.Metrics.Port == m.Port {
+		add("ports:metrics-shares-server-port")
+	}
+	if m.Admin.Mode == Enabled && m.Admin.Port == m.Port {
+		add("ports:admin-shares-server-port")
+	}
+	if m.Metrics.Mode == Enabled && m.Admin.Mode == Enabled && m.Admin.Port == m.Metrics.Port {
+		add("ports:admin-shares-metrics-port")
 	}
 
 	// logging
